@@ -120,7 +120,7 @@ func (st *state) runOracle() {
 		if e := d / tol; e > st.maxOraErr {
 			st.maxOraErr = e
 		}
-		if want > 1e-20 && want < 1e-9 && q.area > 0 && q.area < 1 {
+		if (q.class == "tiny-triangle 1e-14sr" || q.class == "regular r=1e-07") && want > 0 && q.area > 0 && q.area < 1 {
 			if rel := math.Abs(q.area-want) / want; rel > st.maxRelTiny {
 				st.maxRelTiny = rel
 			}
